@@ -11,7 +11,7 @@ def main():
     def esafe(rec, m, e):
         rc = set(rec["recopy"] or [])
         tg, k, a = e
-        return m["copies"] and tg == "self" and (k == "rebind" or (k == "inplace" and a in rc))
+        return m["copies"] and tg == "self" and (k in ("rebind", "rebind_unset") or (k == "inplace" and a in rc))
     safe_l, unsafe_l, ueffs = [], [], []
     for rec in t:
         for m in rec["methods"]:
